@@ -2,11 +2,10 @@
 C12 — entity change tracking records exactly the delta from the loaded to the current state.
 ONLY property statements and non-vacuity examples live here; lemmas are in Proofs/C12.lean.
 
-Model `B` (Model/C12.lean) transcribes graph/properties.go, graph/kind.go, graph/node.go as they are.  The merges as
-they are in /repo violate the property (finding F4): the full statement `C12_full` is *refuted* (`c12_full_refuted`), it
-is proved for the minimally repaired merges (`c12_fixed`, hooks/C12-fix.patch), and `c12_partial` states what holds of
-the code as it is: every clause except "Deleted ∩ current = ∅" for ALL histories, and the full statement for every
-history whose merges satisfy an exact (iff) side condition — in particular every merge-free history.
+Model `B` (Model/C12.lean) transcribes graph/properties.go, graph/kind.go, graph/node.go, graph/relationships.go as
+they are.  `C12_full` is the statement about the code as it is and `c12 : C12_full` proves it.  The merges before commit
+179da67 violated the property (finding F4): they are kept as `Props.mergeOld` / `Ent.mergeKindsOld`, the statement about
+them (`C12_old`) is refuted (`c12_old_refuted`), and `c12_old_partial` records what did hold of them.
 -/
 import Dawgs.Proofs.C12
 namespace Dawgs.C12.Props
@@ -40,7 +39,7 @@ theorem setAll_inv {L : KV} {s : Props} (h : Inv L s) (kvs : KV) :
 on one of two entities leaves the other one unchanged (operations write only their target). -/
 theorem clone_inv_and_independent {L : KV} {s : Props} (h : Inv L s) :
     Inv L s.clone ∧ s.clone = s ∧
-    ∀ (fixed : Bool) (st : St) (o : Op) (g : Bool), g ≠ o.target → (st.step fixed o).get g = st.get g :=
+    ∀ (old : Bool) (st : St) (o : Op) (g : Bool), g ≠ o.target → (st.step old o).get g = st.get g :=
   ⟨by rw [clone_eq]; exact h, clone_eq s, step_frame⟩
 
 /-! ### Merge of two entities loaded from the same state -/
@@ -50,28 +49,28 @@ an entity that satisfies it. -/
 def MergeInv (merge : Props → Props → Props) : Prop :=
   ∀ (L : KV) (s o : Props), Inv L s → Inv L o → Inv L (merge s o)
 
-/-- … holds of the repaired `Merge`. -/
-theorem merge_inv_fixed : MergeInv Props.mergeFixed := fun _ _ _ h ho => inv_mergeFixed h ho
+/-- … holds of `Properties.Merge` as it is (and therefore of `Relationship.Merge`, which is nothing else). -/
+theorem merge_inv : MergeInv Props.merge := fun _ _ _ h ho => inv_merge h ho
 
-/-- … holds of `Merge` as it is exactly when no key deleted on the receiver is merely carried (present, unmodified)
+/-- … held of `Merge` before commit 179da67 exactly when no key deleted on the receiver is merely carried (present, unmodified)
 by the other side; all other clauses hold unconditionally. -/
-theorem merge_inv_iff {L : KV} {s o : Props} (h : Inv L s) (ho : Inv L o) :
-    (Inv L (s.merge o) ↔ ∀ k, k ∈ s.del → lookup o.m k ≠ none → k ∈ o.mod) ∧ WeakInv L (s.merge o) :=
-  ⟨inv_merge_iff h ho, weak_merge h.toWeak ho.toWeak⟩
+theorem merge_inv_old_iff {L : KV} {s o : Props} (h : Inv L s) (ho : Inv L o) :
+    (Inv L (s.mergeOld o) ↔ ∀ k, k ∈ s.del → lookup o.m k ≠ none → k ∈ o.mod) ∧ WeakInv L (s.mergeOld o) :=
+  ⟨inv_mergeOld_iff h ho, weak_mergeOld h.toWeak ho.toWeak⟩
 
 /-- the F4 witness: loaded `{a:1, b:2}`, `s.Delete(a)`, `s.Merge(unmodified other)` -/
 def f4L : KV := [(0, 1), (1, 2)]
 def f4s : Props := (Props.load (some f4L)).delete 0
 def f4o : Props := Props.load (some f4L)
 
-/-- … and is FALSE of `Merge` as it is (finding F4): `a` ends up in `Map` and in `Deleted`. -/
-theorem merge_inv_refuted : ¬ MergeInv Props.merge := by
+/-- … and was FALSE of `Merge` before commit 179da67 (finding F4): `a` ends up in `Map` and in `Deleted`. -/
+theorem merge_inv_old_refuted : ¬ MergeInv Props.mergeOld := by
   intro h
   have hs : Inv f4L f4s := inv_delete (inv_load (some f4L)) 0
   have ho : Inv f4L f4o := inv_load (some f4L)
   have hi := h f4L f4s f4o hs ho
-  have h1 : (0 : Key) ∈ (f4s.merge f4o).del := by decide
-  have h2 : lookup (f4s.merge f4o).m 0 = some 1 := by decide
+  have h1 : (0 : Key) ∈ (f4s.mergeOld f4o).del := by decide
+  have h2 : lookup (f4s.mergeOld f4o).m 0 = some 1 := by decide
   have := hi.delDom 0 h1
   rw [h2] at this
   cases this
@@ -79,18 +78,18 @@ theorem merge_inv_refuted : ¬ MergeInv Props.merge := by
 def KMergeInv (merge : Ent → Ent → Ent) : Prop :=
   ∀ (L : List Kind) (s o : Ent), KInv L s → KInv L o → KInv L (merge s o)
 
-theorem kinds_merge_inv_fixed : KMergeInv Ent.mergeKindsFixed := fun _ _ _ h ho => kinv_mergeKindsFixed h ho
+theorem kinds_merge_inv : KMergeInv Ent.mergeKinds := fun _ _ _ h ho => kinv_mergeKinds h ho
 
-theorem kinds_merge_inv_iff {L : List Kind} {s o : Ent} (h : KInv L s) (ho : KInv L o) :
-    (KInv L (s.mergeKinds o) ↔ ∀ k, k ∈ s.removed → k ∈ o.kinds → k ∈ o.added) ∧ WeakKInv L (s.mergeKinds o) :=
-  ⟨kinv_mergeKinds_iff h ho, weak_mergeKinds h.toWeak ho.toWeak⟩
+theorem kinds_merge_inv_old_iff {L : List Kind} {s o : Ent} (h : KInv L s) (ho : KInv L o) :
+    (KInv L (s.mergeKindsOld o) ↔ ∀ k, k ∈ s.removed → k ∈ o.kinds → k ∈ o.added) ∧ WeakKInv L (s.mergeKindsOld o) :=
+  ⟨kinv_mergeKindsOld_iff h ho, weak_mergeKindsOld h.toWeak ho.toWeak⟩
 
 /-- the F4 witness for kinds: loaded `[A, B]`, `n.DeleteKinds(A)`, `n.Merge(unmodified other)` ⇒ `Kinds = [B, A]`,
 `DeletedKinds = [A]` -/
 def f4Load : Loaded := { store := some f4L, kinds := [0, 1] }
 def f4n : Ent := f4Load.ent.deleteKinds [0]
 
-theorem kinds_merge_inv_refuted : ¬ KMergeInv Ent.mergeKinds := by
+theorem kinds_merge_inv_old_refuted : ¬ KMergeInv Ent.mergeKindsOld := by
   intro h
   have hs : KInv [0, 1] f4n := kinv_deleteKinds (kinv_load f4Load (by decide)) [0]
   have ho : KInv [0, 1] f4Load.ent := kinv_load f4Load (by decide)
@@ -119,35 +118,36 @@ def LastEditWins : Prop :=
     (k ∈ (s.runEdits es).del ↔ match lastEdit es k with | none => k ∈ s.del | some r => r.isNone = true)) ∧
   (∀ (s : Props) (kvs : KV), s.setAll kvs = s.runEdits (editsOfKV kvs))
 
-/-- C12 for a choice of merges: for every loaded state with duplicate-free kinds and every finite history of
-Set/SetAll/Delete/reads/Clone/Properties.Merge/AddKinds/DeleteKinds/Node.Merge over two entities loaded from it,
-both entities are tracked exactly; and the last edit wins. -/
-def C12_for (fixed : Bool) : Prop :=
-  (∀ (L : Loaded), L.kinds.Nodup → ∀ (ops : List Op) (e : Bool), Exact L (((St.init L).run fixed ops).get e)) ∧
+/-- C12 for a version of the code (`old = true`: the merges before commit 179da67): for every loaded state with
+duplicate-free kinds and every finite history of Set/SetAll/Delete/reads/Clone/Properties.Merge/Relationship.Merge/
+AddKinds/DeleteKinds/Node.Merge over two entities loaded from it, both entities are tracked exactly; and the last edit
+wins. -/
+def C12_for (old : Bool) : Prop :=
+  (∀ (L : Loaded), L.kinds.Nodup → ∀ (ops : List Op) (e : Bool), Exact L (((St.init L).run old ops).get e)) ∧
   LastEditWins
 
 /-- C12 at full strength for the code as it is in /repo. -/
 def C12_full : Prop := C12_for false
 
-/-- C12 at full strength for the repaired merges (hooks/C12-fix.patch). -/
-def C12_full_fixed : Prop := C12_for true
+/-- the same statement about the code before commit 179da67 (finding F4) -/
+def C12_old : Prop := C12_for true
 
 theorem exact_of_einv {L : Loaded} {x : Ent} (h : EInv L x) : Exact L x :=
   ⟨h.props.disj, h.kinds.disj, inv_reproduces h.props, kinv_reproduces h.kinds, h⟩
 
 /-- `history_inv`: with the repaired merges the invariant holds after every history, for both entities. -/
 theorem history_inv (L : Loaded) (hn : L.kinds.Nodup) (ops : List Op) (e : Bool) :
-    Inv L.kv (((St.init L).run true ops).get e).props :=
-  (sinv_run_fixed (sinv_init L hn) ops e).props
+    Inv L.kv (((St.init L).run false ops).get e).props :=
+  (sinv_run (sinv_init L hn) ops e).props
 
 /-- `kinds_history_inv`: the same for the kind delta. -/
 theorem kinds_history_inv (L : Loaded) (hn : L.kinds.Nodup) (ops : List Op) (e : Bool) :
-    KInv L.kinds (((St.init L).run true ops).get e) :=
-  (sinv_run_fixed (sinv_init L hn) ops e).kinds
+    KInv L.kinds (((St.init L).run false ops).get e) :=
+  (sinv_run (sinv_init L hn) ops e).kinds
 
 /-- corollary: applying the recorded delta to the loaded state reproduces the current state, properties and kinds. -/
 theorem reproduce_loaded_state (L : Loaded) (hn : L.kinds.Nodup) (ops : List Op) (e : Bool) :
-    Reproduces L.kv (((St.init L).run true ops).get e).props ∧ KReproduces L.kinds (((St.init L).run true ops).get e) :=
+    Reproduces L.kv (((St.init L).run false ops).get e).props ∧ KReproduces L.kinds (((St.init L).run false ops).get e) :=
   ⟨inv_reproduces (history_inv L hn ops e), kinv_reproduces (kinds_history_inv L hn ops e)⟩
 
 /-- What the drivers send (`ModifiedProperties()`, `DeletedProperties()`) is exactly the delta: the sent keys are the
@@ -181,26 +181,81 @@ theorem monitor_sound (L : Loaded) (x : Ent) :
        (∀ k, k ∈ x.removed → k ∉ x.kinds) ∧ (∀ k, k ∉ x.added → k ∉ x.removed → (k ∈ x.kinds ↔ k ∈ L.kinds)))) :=
   ⟨propsViolation_none_iff L.kv x.props, kindsViolation_none_iff L.kinds x⟩
 
+/-! ### relationships, reads, constructors, empty SetAll -/
+
+/-- `Relationship.Merge` (= `Properties.Merge` on the relationship's properties) preserves the invariant and leaves the
+kind fields alone; the old one preserved everything except `Deleted ∩ dom Map = ∅`. -/
+theorem relationship_merge_inv {L : KV} {s o : Ent} (h : Inv L s.props) (ho : Inv L o.props) :
+    Inv L (s.relMerge false o).props ∧ WeakInv L (s.relMerge true o).props ∧
+    ∀ old, (s.relMerge old o).kinds = s.kinds ∧ (s.relMerge old o).added = s.added ∧ (s.relMerge old o).removed = s.removed :=
+  ⟨inv_merge h ho, weak_mergeOld h.toWeak ho.toWeak, fun _ => ⟨rfl, rfl, rfl⟩⟩
+
+/-- Reads (`Get`, `GetOrDefault`, `GetWithFallback`, `Exists`, `Len`, `Keys`) are functions of the current map only —
+they are independent of the tracking sets, and as operations they leave the whole state (tracking included) unchanged;
+`GetOrDefault` is `GetWithFallback` without fallback keys. -/
+theorem reads_do_not_track (old : Bool) (st : St) (e : Bool) (s : Props) (md dl : Option (List Key)) (k : Key) (d : Val)
+    (fb : List Key) :
+    st.step old (.read e) = st ∧
+    ({ s with modified := md, deleted := dl } : Props).get k = s.get k ∧
+    ({ s with modified := md, deleted := dl } : Props).exists k = s.exists k ∧
+    ({ s with modified := md, deleted := dl } : Props).len = s.len ∧
+    ({ s with modified := md, deleted := dl } : Props).keys = s.keys ∧
+    ({ s with modified := md, deleted := dl } : Props).getWithFallback k d fb = s.getWithFallback k d fb ∧
+    s.getOrDefault k d = s.getWithFallback k d [] :=
+  ⟨rfl, rfl, rfl, rfl, rfl, rfl, getOrDefault_eq s k d⟩
+
+/-- `SetAll` of a nil or empty map changes nothing — not even the nil-ness of the tracking maps. -/
+theorem setAll_empty_noop (s : Props) : s.setAll [] = s := rfl
+
+/-- Every constructor (`NewProperties`, `NewPropertiesRed`, `AsProperties` of any map type; `NewNode`, `PrepareNode`,
+`NewRelationship`, `PrepareRelationship` around them) yields an untracked entity: tracking maps nil, nothing reported
+to the drivers, invariant of its own store. -/
+theorem constructors_untracked (L : Loaded) (hn : L.kinds.Nodup) :
+    (Props.load L.store).modified = none ∧ (Props.load L.store).deleted = none ∧
+    (Props.load L.store).modifiedProperties = [] ∧ (Props.load L.store).deletedProperties = none ∧
+    L.ent.added = [] ∧ L.ent.removed = [] ∧ EInv L L.ent :=
+  ⟨rfl, rfl, rfl, rfl, rfl, rfl, ⟨inv_load L.store, kinv_load L hn⟩⟩
+
+/-! ### consumers (the table of real update paths is tied in Props/C12Consumers.lean) -/
+
+/-- Semantics of the two complete forms, for every entity that satisfies the invariant (i.e. after every history,
+`c12`): a path whose property part is complete reproduces the properties, a path whose kind part is complete
+reproduces the kinds, when what it sends is applied to the loaded state. -/
+theorem consumer_sound (L : Loaded) (x : Ent) (h : EInv L x) (r : List Nat) :
+    (propsTouched r = true → propsPartOk r = true →
+      ∀ k, lookup (applyDelta L.kv (sentProps r x.props).1 (sentProps r x.props).2) k = lookup x.props.m k) ∧
+    (kindsTouched r = true → kindsPartOk r = true →
+      ∀ k, k ∈ applyKinds L.kinds (sentKinds r x).1 (sentKinds r x).2 ↔ k ∈ x.kinds) :=
+  ⟨fun ht hok k => sentProps_reproduces h.props r ht hok k, fun ht hok k => sentKinds_reproduces h.kinds r ht hok k⟩
+
+/-- The side condition is needed: a path that sends the whole map but not the deleted properties (the shape of
+neo4j `cypherBuildNodeUpdateQueryBatch`: reads AddedKinds, DeletedKinds, Properties.Map) loses a deletion — loaded
+`{a:1}`, `Delete(a)`: the stored `a` survives the update. -/
+theorem incomplete_consumer_loses_deletion :
+    ∃ (L : KV) (s : Props), Inv L s ∧ propsPartOk [0, 1, 5] = false ∧
+      lookup (applyDelta L (sentProps [0, 1, 5] s).1 (sentProps [0, 1, 5] s).2) 0 ≠ lookup s.m 0 :=
+  ⟨[(0, 1)], (Props.load (some [(0, 1)])).delete 0, inv_delete (inv_load (some [(0, 1)])) 0, by decide, by decide⟩
+
 /-! ### the property -/
 
-/-- C12 holds at full strength once the two merges are repaired. -/
-theorem c12_fixed : C12_full_fixed :=
-  ⟨fun L hn ops e => exact_of_einv (sinv_run_fixed (sinv_init L hn) ops e), last_edit_wins⟩
+/-- C12 holds at full strength of the code as it is. -/
+theorem c12 : C12_full :=
+  ⟨fun L hn ops e => exact_of_einv (sinv_run (sinv_init L hn) ops e), last_edit_wins⟩
 
-/-- C12 is FALSE of the code as it is: after `Delete(a); Merge(unmodified other)` key `a` is in `Map` and in `Deleted`
-(DESIGN §5 F4; corpus/C12/c12_f4_props.ops is the same history against the real code). -/
-theorem c12_full_refuted : ¬ C12_full := by
+/-- C12 was FALSE of the code before commit 179da67: after `Delete(a); Merge(unmodified other)` key `a` is in `Map` and in `Deleted`
+(DESIGN §5 F4; corpus/C12/c12_f4_props.ops is the same history, now a regression case against the real code). -/
+theorem c12_old_refuted : ¬ C12_old := by
   intro h
   have hx := h.1 f4Load (by decide) [.delete false 0, .pmerge false true] false
-  have h1 : (0 : Key) ∈ (((St.init f4Load).run false [.delete false 0, .pmerge false true]).get false).props.del := by
+  have h1 : (0 : Key) ∈ (((St.init f4Load).run true [.delete false 0, .pmerge false true]).get false).props.del := by
     decide
-  have h2 : lookup (((St.init f4Load).run false [.delete false 0, .pmerge false true]).get false).props.m 0 = some 1 := by
+  have h2 : lookup (((St.init f4Load).run true [.delete false 0, .pmerge false true]).get false).props.m 0 = some 1 := by
     decide
   have := hx.inv.props.delDom 0 h1
   rw [h2] at this
   cases this
 
-/-- What does hold of the code as it is:
+/-- What did hold of the code before commit 179da67:
 (a) after EVERY history, merges included, every clause of the invariant except "Deleted ∩ dom Map = ∅" /
     "DeletedKinds ∩ Kinds = ∅" holds — in particular a key or kind is never reported both written and removed,
     modified keys are present, untouched keys are as loaded;
@@ -208,25 +263,25 @@ theorem c12_full_refuted : ¬ C12_full := by
     carried by the other side) the entities are tracked exactly; merge-free histories always satisfy it;
 (c) the side condition is exact: from a consistent state, one operation keeps the state consistent iff it is safe;
 (d) the last edit wins. -/
-def C12_partial : Prop :=
-  (∀ (L : Loaded), L.kinds.Nodup → ∀ (ops : List Op) (e : Bool), EWeak L (((St.init L).run false ops).get e)) ∧
+def C12_old_partial : Prop :=
+  (∀ (L : Loaded), L.kinds.Nodup → ∀ (ops : List Op) (e : Bool), EWeak L (((St.init L).run true ops).get e)) ∧
   (∀ (L : Loaded), L.kinds.Nodup → ∀ (ops : List Op), (St.init L).SafeRun ops →
-      ∀ e, Exact L (((St.init L).run false ops).get e)) ∧
+      ∀ e, Exact L (((St.init L).run true ops).get e)) ∧
   (∀ (st : St) (ops : List Op), (∀ o, o ∈ ops → o.isMerge = false) → st.SafeRun ops) ∧
-  (∀ (L : Loaded) (st : St) (o : Op), SInv L st → (SInv L (st.step false o) ↔ o.SafeAt st)) ∧
+  (∀ (L : Loaded) (st : St) (o : Op), SInv L st → (SInv L (st.step true o) ↔ o.SafeAt st)) ∧
   LastEditWins
 
-theorem c12_partial : C12_partial :=
-  ⟨fun L hn ops e => sweak_run (sinv_init L hn).toWeak ops e,
-   fun L hn ops hs e => exact_of_einv (sinv_run_current (sinv_init L hn) ops hs e),
+theorem c12_old_partial : C12_old_partial :=
+  ⟨fun L hn ops e => sweak_run_old (sinv_init L hn).toWeak ops e,
+   fun L hn ops hs e => exact_of_einv (sinv_run_old (sinv_init L hn) ops hs e),
    safeRun_of_noMerge,
-   fun _ _ o h => sinv_step_current_iff h o,
+   fun _ _ o h => sinv_step_old_iff h o,
    last_edit_wins⟩
 
 /-! ### non-vacuity (examples are tests, not theorems) -/
 
 /-- the hypotheses `Inv L s`, `Inv L o` of the merge theorems are satisfiable on states with non-empty deltas, and the
-side condition of `merge_inv_iff` is satisfiable (o re-set the key s deleted) and refutable (F4) -/
+side condition of `merge_inv_old_iff` is satisfiable (o re-set the key s deleted) and refutable (F4) -/
 example : Inv f4L ((f4o.set 2 5).delete 1) ∧ Inv f4L (f4s.set 3 0) :=
   ⟨inv_delete (inv_set (inv_load (some f4L)) 2 5) 1, inv_set (inv_delete (inv_load (some f4L)) 0) 3 0⟩
 example : propsViolation f4L ((f4o.set 2 5).delete 1).m ((f4o.set 2 5).delete 1).mod ((f4o.set 2 5).delete 1).del = none := by
@@ -234,16 +289,16 @@ example : propsViolation f4L ((f4o.set 2 5).delete 1).m ((f4o.set 2 5).delete 1)
 example : ∀ k, k ∈ f4s.del → lookup (f4o.set 0 7).m k ≠ none → k ∈ (f4o.set 0 7).mod := by decide
 example : ¬ ∀ k, k ∈ f4s.del → lookup f4o.m k ≠ none → k ∈ f4o.mod := by decide
 /-- current and repaired merge on the F4 witness: the map is the same, only the repaired one un-deletes `a` -/
-example : (f4s.merge f4o).m = [(0, 1), (1, 2)] ∧ (f4s.merge f4o).del = [0] ∧
-    (f4s.mergeFixed f4o).m = [(0, 1), (1, 2)] ∧ (f4s.mergeFixed f4o).del = [] := by decide
-example : propsViolation f4L (f4s.merge f4o).m (f4s.merge f4o).mod (f4s.merge f4o).del = some (.deletedKeyPresent 0) := by
+example : (f4s.mergeOld f4o).m = [(0, 1), (1, 2)] ∧ (f4s.mergeOld f4o).del = [0] ∧
+    (f4s.merge f4o).m = [(0, 1), (1, 2)] ∧ (f4s.merge f4o).del = [] := by decide
+example : propsViolation f4L (f4s.mergeOld f4o).m (f4s.mergeOld f4o).mod (f4s.mergeOld f4o).del = some (.deletedKeyPresent 0) := by
   decide
-example : (f4n.mergeKinds f4Load.ent).kinds = [1, 0] ∧ (f4n.mergeKinds f4Load.ent).removed = [0] ∧
-    (f4n.mergeKindsFixed f4Load.ent).kinds = [1, 0] ∧ (f4n.mergeKindsFixed f4Load.ent).removed = [] := by decide
-example : kindsViolation [0, 1] (f4n.mergeKinds f4Load.ent).kinds (f4n.mergeKinds f4Load.ent).added
-    (f4n.mergeKinds f4Load.ent).removed = some (.deletedKindPresent 0) := by decide
+example : (f4n.mergeKindsOld f4Load.ent).kinds = [1, 0] ∧ (f4n.mergeKindsOld f4Load.ent).removed = [0] ∧
+    (f4n.mergeKinds f4Load.ent).kinds = [1, 0] ∧ (f4n.mergeKinds f4Load.ent).removed = [] := by decide
+example : kindsViolation [0, 1] (f4n.mergeKindsOld f4Load.ent).kinds (f4n.mergeKindsOld f4Load.ent).added
+    (f4n.mergeKindsOld f4Load.ent).removed = some (.deletedKindPresent 0) := by decide
 /-- a history with two safe merges (entity 1 re-sets the key entity 0 deleted; entity 1 re-adds the kind entity 0
-deleted), run on the code as it is: `SafeRun` holds and the final state is the expected one -/
+deleted), run on the old code: `SafeRun` holds and the final state is the expected one -/
 def safeHistory : List Op :=
   [.delete false 0, .set true 0 7, .pmerge false true, .deleteKinds false [0], .addKinds true [some 0, none, some 2],
    .nmerge false true, .clone false true, .setAll true [(3, 4), (1, 0)], .nmerge true false]
@@ -251,7 +306,7 @@ example : (St.init f4Load).SafeRun safeHistory := by decide
 /-- … and the F4 history is not safe -/
 example : ¬ (St.init f4Load).SafeRun [.delete false 0, .pmerge false true] := by decide
 example :
-    let x := ((St.init f4Load).run false safeHistory).get true
+    let x := ((St.init f4Load).run true safeHistory).get true
     x.props.m = [(0, 7), (1, 2), (3, 4)] ∧ x.props.mod = [1, 3, 0] ∧ x.props.del = [] ∧
     x.kinds = [0, 1, 2] ∧ x.added = [0, 2] ∧ x.removed = [] := by decide
 /-- last edit wins, on a history that sets, deletes and re-sets a key -/
